@@ -304,7 +304,7 @@ def replay(pid: str, module, data: dict) -> int:
     if not hits:
         print(f"[{pid}] {sig}: not reproduced on the current tree ({rep.evaluations} cases re-run with run seed {run['seed']})")
         return 0
-    same = [v for v in hits if jsonable(v["case"]) == data.get("case")]
+    same = [v for v in hits if json.loads(json.dumps(jsonable(v["case"]), default=repr)) == data.get("case")]
     v = (same or hits)[0]
     print(f"[{pid}] {sig}: REPRODUCED ({'the identical case' if same else 'same signature, another case of the run'})")
     print("  " + v["what"][:1000])
